@@ -203,7 +203,7 @@ fn judge_text(text: &str, expected: &RRes, family: &str, coord: serde_json::Valu
     let got = subject_eval(text);
     let bad = match (expected, &got) {
         (_, SRes::Panic(_)) => Some("panic"),
-        (Err(RErr::Unspec(_)), _) => None,
+        (Err(RErr::Unspec(_)), _) | (Err(RErr::Constraint), _) => None,
         (Ok(v), SRes::Ok(g)) => {
             if v == g {
                 None
@@ -232,7 +232,7 @@ fn judge_tree(e: &E, family: &str, coord: serde_json::Value, l: &mut Local) {
     let min = e.print(false);
     let full = e.print(true);
     match &expected {
-        Err(RErr::Unspec(_)) => l.unspecified += 1,
+        Err(RErr::Unspec(_)) | Err(RErr::Constraint) => l.unspecified += 1,
         Ok(_) => {
             l.class("defined-value");
             l.nontrivial(&min);
